@@ -10,6 +10,7 @@ pub mod c09;
 pub mod c10;
 pub mod c11;
 pub mod c12;
+pub mod c20;
 
 /// A frame handed to the radio (recorded at call time, whether or not the call then failed).
 #[derive(Clone, Debug)]
